@@ -209,7 +209,9 @@ contract(T + ".run", "C08",
                                       "and self._last_failure >= clock_first())",
              "failure-counted": "implies(not result.cached and (raised('.express') or result.action == 'FAILURE'), "
                                 "self._failure_count == old(self)._failure_count + 1)",
-             "intentional-block-not-counted": "implies(not result.cached and result.blocked and result.success, "
+             # an intentional block = the gate's verdict (a veto, a skip), as opposed to an agent that failed or raised -- whatever its `success` flag says
+             "intentional-block-not-counted": "implies(not result.cached and result.blocked and not raised('.express') and result.action != 'FAILURE' "
+                                              "and result.action != 'ERROR' and result.action != 'CIRCUIT_OPEN', "
                                               "self._failure_count == old(self)._failure_count and "
                                               "self._circuit_state == old_state_after_check(old(self), self))",
              "success-never-counts": "implies(result.success and not result.blocked, self._failure_count <= old(self)._failure_count)",
@@ -231,11 +233,55 @@ def native_replay(rep):
     """cache obligations speak about hashes (uninterpreted in the proof): the witness is searched for with prompt pairs that differ only in
     case / spacing / one character, through the real run(); every other obligation uses the default state replay (return None)"""
     tgt = rep.get("target", "")
-    if not any(tgt.endswith(x) for x in ("._get_cache_key", "._check_cache", "._cache_result")):
-        return None
     import io, contextlib, hashlib
     from operon_ai.topology.loops import CoherentFeedForwardLoop
     from operon_ai.state.metabolism import ATP_Store
+    if rep.get("property") == "C07" and (tgt.endswith(".run") or any(tgt.endswith(x) for x in ("._check_cache", "._cache_result"))):
+        # "cached replies are identical in verdict to the original": the same request twice through the real loop (blocked and permitted ones)
+        for prompt in ("delete all customer records", "Summarise the weekly report", "rm -rf /", "hello"):
+            with contextlib.redirect_stdout(io.StringIO()):
+                loop = CoherentFeedForwardLoop(budget=ATP_Store(budget=10000, silent=True), silent=True)
+                r1 = loop.run(prompt)
+                v1 = (r1.blocked, r1.success, r1.action)
+                r2 = loop.run(prompt)
+            if (r2.blocked, r2.success, r2.action) != v1:
+                return {"confirmed": True, "found_by": "repeat of the same request",
+                        "observed": f"run({prompt!r}) twice: first (blocked, success, action)={v1}, repeat (cached={r2.cached}) = {(r2.blocked, r2.success, r2.action)}"}
+    if rep.get("property") == "C08":
+        # breaker histories on the real loop with scripted agents: vetoes (every gate logic, every veto shape) are never counted as failures and never open the
+        # breaker; agent failures are counted and open it at the threshold
+        from operon_ai.topology.loops import GateLogic, CircuitState
+        from operon_ai.core.types import ActionProtein
+
+        class Scripted:
+            def __init__(self, name, verdict):
+                self.name, self.verdict = name, verdict
+
+            def express(self, signal):
+                if self.verdict == "RAISE":
+                    raise RuntimeError("agent down")
+                return ActionProtein(action_type=self.verdict, payload="scripted", confidence=1.0)
+        for logic in GateLogic:
+            for ex_v, as_v, intentional in (("BLOCK", "BLOCK", True), ("EXECUTE", "BLOCK", True), ("BLOCK", "PERMIT", True), ("EXECUTE", "PERMIT", None),
+                                            ("FAILURE", "PERMIT", False), ("RAISE", "PERMIT", False)):
+                with contextlib.redirect_stdout(io.StringIO()):
+                    loop = CoherentFeedForwardLoop(budget=ATP_Store(budget=10 ** 6, silent=True), gate_logic=logic, failure_threshold=2, enable_cache=False, silent=True)
+                    loop.executor, loop.assessor = Scripted("executor", ex_v), Scripted("assessor", as_v)
+                    results = [loop.run(f"request {i}") for i in range(3)]
+                blocked_all = all(r.blocked for r in results)
+                if intentional is True and blocked_all and all(r.action not in ("FAILURE", "ERROR", "CIRCUIT_OPEN") for r in results[:1]):
+                    if loop._failure_count != 0 or loop._circuit_state != CircuitState.CLOSED or any(r.action == "CIRCUIT_OPEN" for r in results):
+                        return {"confirmed": True, "found_by": "scripted breaker histories",
+                                "observed": f"gate {logic.name}, executor says {ex_v}, assessor says {as_v} (a veto, no agent failed), threshold 2, three requests: "
+                                            f"failure_count={loop._failure_count}, breaker {loop._circuit_state.name}, actions {[r.action for r in results]}"}
+                if intentional is False:
+                    if loop._circuit_state != CircuitState.OPEN or results[2].action != "CIRCUIT_OPEN":
+                        return {"confirmed": True, "found_by": "scripted breaker histories",
+                                "observed": f"gate {logic.name}, executor {ex_v}: two consecutive agent failures at threshold 2 did not open the breaker "
+                                            f"(state {loop._circuit_state.name}, third answer {results[2].action})"}
+        return None
+    if not any(tgt.endswith(x) for x in ("._get_cache_key", "._check_cache", "._cache_result")):
+        return None
     pairs = [("Run Report", "run report"), ("rm  -rf /tmp/build", "rm -rf /tmp/build"), ("a b", "a  b"), ("A", "a"), ("hello", "hello "), ("x", "y"), ("", " ")]
     n = 0
     for a, b in pairs:
